@@ -153,6 +153,14 @@ def _sum2(x, y):  # noqa: ANN001, ANN202
     return x + y
 
 
+def _twice(k):  # noqa: ANN001, ANN202
+    return 2.0 * k
+
+
+def double_ma1(s, k):  # noqa: ANN001, ANN202
+    return 2.0 * k * s
+
+
 def scan_model(name: str):  # noqa: ANN201
     """S1: chain with a derived variable and a readout.
     S2: conserved pair whose backward rate uses a PARAMETER defined by an initial
@@ -174,6 +182,18 @@ def scan_model(name: str):  # noqa: ANN201
             m.add_reaction("v2", fnlib.div, args=["y", "kd"], stoichiometry={"y": -1})
         m.add_readout("ratio", _ratio, args=["x", "y"])
         return m
+    if name == "S4":
+        # S1 whose second variable STARTS at a value computed from a parameter (2 * k1)
+        from mxlpy import InitialAssignment as _IA
+
+        m.add_parameters({"c": 1.0, "k1": 0.5, "k2": 0.25})
+        m.add_variable("x", 1.0)
+        m.add_variable("y", _IA(fn=_twice, args=["k1"]))
+        m.add_derived("tot", _sum2, args=["x", "y"])
+        m.add_reaction("vin", fnlib.const, args=["c"], stoichiometry={"x": 1})
+        m.add_reaction("v1", fnlib.ma1, args=["x", "k1"], stoichiometry={"x": -1, "y": 1})
+        m.add_reaction("v2", fnlib.ma1, args=["y", "k2"], stoichiometry={"y": -1})
+        return m
     if name == "S2":
         m.add_parameters({"kf": 1.0, "kr": 0.5})
         m.add_variables({"x": 2.0, "y": 1.0})
@@ -190,4 +210,5 @@ SCAN_MODELS = {
     "S1": (["c", "k1", "k2"], ["x", "y"]),
     "S2": (["kf", "kr", "tot"], ["x", "y"]),  # tot: a parameter DEFINED by an initial assignment; scanning it replaces the assignment by the row value
     "S3": (["c", "k1", "kd"], ["x", "y"]),
+    "S4": (["c", "k1", "k2"], ["x"]),  # y starts at 2*k1 (initial assignment): scanning k1 moves the start
 }
